@@ -320,7 +320,7 @@ fn main() {
                     1,
                     move |env: &mut Env| {
                         let n = env.cases(1500, 30);
-                        let st = proptest::collection::vec(if w64 { moderate64() } else { moderate() }, NW);
+                        let st = vcore::lattice::with_related_operands(proptest::collection::vec(if w64 { moderate64() } else { moderate() }, NW).boxed(), if w64 { 64 } else { 32 });
                         env.prop("table", n, st, &table_check(pr, ar, api, ty, name));
                     },
                     table_check(pr, ar, api, ty, name),
